@@ -9,6 +9,7 @@ from ..common import NPROC, HarnessError, Report, Violation, short
 PROP = "C16"
 CMD = "1;255;3;0;6;M\n"
 TRACE = ("mysensors/transport.py", "mysensors/task.py")
+TRACE_BY_HARNESS = {"H8-tcp-write-vs-disconnect": ("mysensors/transport.py",)}
 
 
 class Conn:
@@ -155,6 +156,101 @@ def h_producers(sched):
     sched.block(lambda: not tp.alive, ("join-pump",))
 
 
+def h_two_sends_first_fails(sched):
+    """H7: the first write fails (send closes the link and asks for a reconnect); the reader thread then
+    reports the loss without error; a second command follows. A command must never be written to a
+    connection whose loss had already been processed when that send began."""
+    log = sched.log
+    gw, transport, conn = make_gateway(log)
+    proto = transport.protocol
+    conn.fail_writes = True
+
+    def sender():
+        for cmd in (CMD, "2;255;3;0;6;M\n"):
+            log.append(("send-begin", cmd, [e[1] for e in log if e[0] == "lost-done"]))
+            try:
+                transport.send(cmd)
+            except Exception as exc:  # pylint: disable=broad-except
+                log.append(("send-raised", type(exc).__name__, str(exc)[:120], S._site(exc)))
+
+    def reader():
+        # what the reader thread does once the link it reads from has been closed
+        sched.block(lambda: not conn.open, ("reader.wait-closed",))
+        try:
+            proto.connection_lost(None)
+            log.append(("lost-done", conn.name))
+        except Exception as exc:  # pylint: disable=broad-except
+            log.append(("event-raised", type(exc).__name__, str(exc)[:120], S._site(exc)))
+
+    t1 = sched.spawn(sender, "sender")
+    t2 = sched.spawn(reader, "event")
+    sched.block(lambda: not t1.alive and not t2.alive, ("join-all",))
+    sched.block(lambda: all(not t.alive for t in sched.threads[1:]), ("join-rest",))
+
+
+def h_tcp_write_vs_disconnect(sched):
+    """H8: the real TCPTransport (reader thread started by the real connect loop) on a fake socket whose
+    sendall takes two steps; a user disconnect() from another thread must not cut a write in half."""
+    import socket as _socket
+    import types
+
+    import mysensors.gateway_tcp as gt
+
+    from .c20t import Env, FakeSocket
+
+    log = sched.log
+    env = Env("tcp", [], [])
+    env.log = log
+
+    class Sock(FakeSocket):
+        def sendall(self, data):
+            sched.point(("sock.sendall-begin", self.idx))
+            if self.closed:
+                raise OSError("sendall on closed socket")
+            log.append(("sendall-begin", self.idx, bytes(data)))
+            sched.point(("sock.sendall-middle", self.idx))
+            if self.closed:
+                log.append(("sendall-cut-off", self.idx, bytes(data)[: len(data) // 2]))
+                raise OSError("socket closed during sendall")
+            log.append(("write", f"s{self.idx}", bytes(data)))
+
+    socks = []
+
+    def create_connection(address, timeout=None):
+        sock = Sock(env, len(socks))
+        socks.append(sock)
+        return sock
+
+    gt.socket = types.SimpleNamespace(create_connection=create_connection, timeout=_socket.timeout)
+    gt.select = types.SimpleNamespace(select=env.select)
+    gt.time = types.SimpleNamespace(sleep=S.coop_sleep, time=S.vtime)
+    gw = gt.TCPGateway("198.51.100.9", reconnect_timeout=50.0, protocol_version="2.2")
+    S.PUMP_TASKS[0] = gw.tasks
+    transport = gw.tasks.transport
+    transport.connect()
+    sched.block(lambda: transport.protocol is not None and transport.protocol.transport is not None, ("wait-link",), timeout=5.0)
+
+    def sender():
+        try:
+            transport.send(CMD)
+        except Exception as exc:  # pylint: disable=broad-except
+            log.append(("send-raised", type(exc).__name__, str(exc)[:120], S._site(exc)))
+
+    def other():
+        try:
+            transport.disconnect()
+        except Exception as exc:  # pylint: disable=broad-except
+            log.append(("event-raised", type(exc).__name__, str(exc)[:120], S._site(exc)))
+
+    t1 = sched.spawn(sender, "sender")
+    t2 = sched.spawn(other, "event")
+    sched.block(lambda: not t1.alive and not t2.alive, ("join-all",))
+    for sock in socks:
+        sock.closed = True
+    transport.protocol = None
+    sched.block(lambda: all(not t.alive for t in sched.threads[1:]), ("join-rest",), timeout=200.0)
+
+
 HARNESSES = {
     "H1-send-vs-lost-none": h_send_vs("lost-none"),
     "H2-send-vs-lost-error": h_send_vs("lost-error"),
@@ -162,13 +258,15 @@ HARNESSES = {
     "H4-send-vs-lost-then-made": h_send_vs("lost-then-made"),
     "H6-failing-send-vs-disconnect": h_send_vs("disconnect-write-fails"),
     "H5-producers-vs-pump": h_producers,
+    "H7-two-sends-first-fails": h_two_sends_first_fails,
+    "H8-tcp-write-vs-disconnect": h_tcp_write_vs_disconnect,
 }
 
 
 def run_one(hname, prefix):
     S.install_library_shims()
     body = HARNESSES[hname]
-    sched = S.Scheduler(prefix, trace_files=TRACE, horizon=3000)
+    sched = S.Scheduler(prefix, trace_files=TRACE_BY_HARNESS.get(hname, TRACE), horizon=3000)
     sched.run(lambda: body(sched))
     return sched
 
@@ -182,9 +280,30 @@ def judge(hname, sched):
             out.append((e[0], f"{e[1]}@{e[3]}", f"{e[1]}: {e[2]} escaped at {e[3]}"))
         if e[0] == "thread-exception" and e[1] in ("sender", "pump"):
             out.append(("send-raised", f"{e[2]}@{e[4]}", f"{e[2]}: {e[3]}"))
-    if sched.problem in ("deadlock", "horizon"):
+    if sched.problem == "deadlock" and hname.startswith("H8") and not sched.threads[0].alive:
+        # the harness body finished; what remains is a library connect thread waiting for a reader thread that
+        # died because disconnect() raced with a reconnect - it cannot write any more (informational, see C20)
+        pass
+    elif sched.problem in ("deadlock", "horizon"):
         out.append((sched.problem, "", f"execution ended in {sched.problem}: {short(log[-3:])}"))
     writes = [e for e in log if e[0] == "write"]
+    for e in log:
+        if e[0] == "sendall-cut-off":
+            out.append(("write-cut-in-half", "", f"the connection was closed in the middle of a write: only {e[2]!r} reached the peer"))
+    if hname.startswith("H7"):
+        # a command written to (attempted on) connection X although X's loss had been processed before the send began
+        begun = None
+        for e in log:
+            if e[0] == "send-begin":
+                begun = e
+            if e[0] == "write-on-closed" and begun is not None and e[1] in begun[2] and e[2] == begun[1].encode():
+                out.append(("write-to-connection-already-reported-lost", "", f"{begun[1]!r} was written to {e[1]} although the loss of {e[1]} had been processed before that send began"))
+        return out
+    if hname.startswith("H8"):
+        mine = [e for e in writes if e[2] == CMD.encode()]
+        if len(mine) > 1:
+            out.append(("command-written-twice", "", f"command written {len(mine)} times"))
+        return out
     if hname.startswith("H5"):
         queued = [e[1] for e in log if e[0] == "queued"]
         sent = [e[2].decode() for e in writes]
@@ -209,7 +328,7 @@ def outcome(hname, sched):
     log = sched.log
     if hname.startswith("H5"):
         return tuple((e[0], e[1] if e[0] == "queued" else e[2]) for e in log if e[0] in ("queued", "write"))
-    return tuple(e[0] if e[0] != "write" else ("write", e[1]) for e in log if e[0] in ("write", "write-on-closed", "write-fails", "close", "connected", "on_conn_lost", "send-raised", "pump-raised", "event-raised", "thread-exception"))
+    return tuple(e[0] if e[0] != "write" else ("write", e[1]) for e in log if e[0] in ("write", "write-on-closed", "write-fails", "close", "connected", "on_conn_lost", "send-raised", "pump-raised", "event-raised", "thread-exception", "sendall-begin", "sendall-cut-off", "lost-done"))
 
 
 def _new_acc():
@@ -255,7 +374,7 @@ def _merge(dst, src):
             dst["found"][sig] = val
 
 
-BOUNDS = {"quick": {"default": 2, "H5-producers-vs-pump": 1}, "thorough": {"default": 3, "H5-producers-vs-pump": 2}}
+BOUNDS = {"quick": {"default": 2, "H5-producers-vs-pump": 1, "H8-tcp-write-vs-disconnect": 2}, "thorough": {"default": 3, "H5-producers-vs-pump": 2, "H8-tcp-write-vs-disconnect": 3}}
 
 
 def run(tier):
